@@ -165,7 +165,15 @@ pub fn step(ctx: &Ctx, w: &World, ev: &mut Ev) {
                 }
             }
             let nb = (ctx.idx % count) as u128;
-            if let Ok(x) = w.q(pf, json!({"get_previous_price": {"key": key, "num_round_back": nb.to_string()}})) {
+            let prev = w.q(pf, json!({"get_previous_price": {"key": key, "num_round_back": nb.to_string()}}));
+            if let Err(e) = &prev {
+                if !e.starts_with("panic") {
+                    // 0 <= n < number of submissions: the round exists, the query has to serve it
+                    ev.eval(true, &("feed_previous_refused", nb.min(3) as u64), || json!({"source": "feed", "query": "previous", "n": nb.to_string(), "submissions": count, "error": e}));
+                    ev.violation("feed_previous", "refused_within_history", json!({"n": nb.to_string(), "submissions": count, "error": e}));
+                }
+            }
+            if let Ok(x) = prev {
                 let got = pu(&x["price"]);
                 let exp = series[count - 1 - nb as usize].1;
                 ev.eval(distinct >= 2, &("feed_previous", nb.min(3) as u64), || json!({"source": "feed", "query": "previous", "n": nb.to_string(), "got": got.to_string()}));
